@@ -374,6 +374,18 @@ fn history_case(case: &mut Case, base: &Path) -> CaseResult {
         earlier.op_files[i].1 = "query EarlierText { __typename }\n".to_string();
         case.label("earlier-run-with-other-operation-text");
     }
+    // a third of the histories: the earlier revision of the inputs denotes the same documents at other positions (a
+    // comment line and a blank line more at the top of an operation file and of a schema file): the declarations
+    // come out the same, their source maps do not
+    if hch.chance(1, 3) {
+        let i = hch.below(earlier.op_files.len());
+        if !earlier.op_files[i].1.starts_with("query EarlierText") {
+            earlier.op_files[i].1 = format!("# the earlier revision had a comment here\n\n{}", earlier.op_files[i].1);
+        }
+        let j = hch.below(earlier.schema_files.len());
+        earlier.schema_files[j].1 = format!("# the earlier revision had a comment here\n\n{}", earlier.schema_files[j].1);
+        case.label("earlier-run-with-shifted-positions");
+    }
     if earlier.config == gp.config && !change_op {
         case.label("earlier-state-equal");
     }
@@ -395,7 +407,7 @@ fn history_case(case: &mut Case, base: &Path) -> CaseResult {
         }
         // now the project as it is
         used.write(&norm(&format!("{}/graphql.config.yaml", gp.layout.root)), &gp.config);
-        for (p, t) in &gp.op_files {
+        for (p, t) in gp.op_files.iter().chain(gp.schema_files.iter()) {
             used.write(p, t);
         }
         let r1 = run_cli(&used.path(&gp.layout.root), &["generate", "--output-format", "json"]);
